@@ -140,6 +140,10 @@ fn set_deadline(c: &mut similar::TextDiffConfig, dl: Option<u64>, via: &str) {
             "timeout" => {
                 c.timeout(std::time::Duration::from_secs(3600));
             }
+            "timeout_max" => {
+                // a timeout too large for an Instant: duration_to_deadline gives None = no deadline
+                c.timeout(std::time::Duration::MAX);
+            }
             _ => {
                 c.deadline(std::time::Instant::now() + std::time::Duration::from_secs(3600));
             }
@@ -220,7 +224,12 @@ fn case_textdiff(kv: &Kv) -> String {
     let o = unhex(kv["old"]);
     let n = unhex(kv["new"]);
     let (mut c, dl) = cfg(kv);
-    set_deadline(&mut c, dl, kv.get("via").copied().unwrap_or("deadline"));
+    let via = kv.get("via").copied().unwrap_or("deadline");
+    if via == "timeout_max" {
+        c.timeout(std::time::Duration::MAX);
+    } else {
+        set_deadline(&mut c, dl, via);
+    }
     let r = if kv["mode"] == "str" {
         let os = std::str::from_utf8(&o).unwrap();
         let ns = std::str::from_utf8(&n).unwrap();
